@@ -1,6 +1,6 @@
 (* Property C02 -- set-safe is compare-and-set; versions only grow (sequential part) *)
 (* Statements only: each theorem restates the proved lemma's statement and is closed by [exact]. *)
-From NunDB Require Import Model.Base Model.Pending Model.Parse Model.Node Proofs.DbProofs.
+From NunDB Require Import Model.Base Model.Pending Model.Parse Model.Node Proofs.DbProofs Model.Sched Proofs.SchedProofs.
 Local Open Scope Z_scope.
 
 (* a versioned write to an existing key succeeds exactly when its version is -1 (plain set) or not older than the stored one *)
@@ -91,3 +91,132 @@ Theorem C02_minus2_lowers_version_refuted :
          option_map v_ver (get_value d "k") = Some 6 /\ option_map v_ver (get_value d' "k") = Some (-2).
 Proof. exact set_minus2_lowers_version. Qed.
 Print Assumptions C02_minus2_lowers_version_refuted.
+
+(* one released step of a scheduled thread changes the database by exactly its data operation (or nothing): the atomic step of the interleaving model *)
+Theorem C02_sched_release_data :
+  forall (n : node) (t : thr),
+         sched_thr t ->
+         (forall (dbn : str) (o : dop') (d : db),
+          data_op n t = Some (dbn, o) ->
+          get_db n dbn = Some d ->
+          (exists d' : db,
+             get_db (fst (release n t)) dbn = Some d' /\
+             d' = db_apply' d o /\ d_map d' = d_map (db_apply' d o) /\ d_watch d' = d_watch d) /\
+          (forall x : str, x <> dbn -> get_db (fst (release n t)) x = get_db n x)) /\
+         (forall (dbn : str) (o : dop'),
+          data_op n t = Some (dbn, o) ->
+          get_db n dbn = None -> forall x : str, get_db (fst (release n t)) x = get_db n x) /\
+         (data_op n t = None ->
+          forall x : str, option_map d_map (get_db (fst (release n t)) x) = option_map d_map (get_db n x)).
+Proof. exact release_data. Qed.
+Print Assumptions C02_sched_release_data.
+
+(* UNBOUNDED INTERLEAVINGS: after any schedule of any number of threads the database content is the sequential replay of the data log in release order (linearizability of the map) *)
+Theorem C02_sched_schedule_data :
+  forall (n : node) (ts : list thr) (sched : list nat) (dbn : str),
+         Forall sched_thr ts ->
+         option_map d_map (get_db (fst (run_schedule n ts sched)) dbn) =
+         option_map d_map
+           (option_map (fun d : db => fold_left db_apply' (ops_on dbn (data_log n ts sched)) d) (get_db n dbn)).
+Proof. exact schedule_data. Qed.
+Print Assumptions C02_sched_schedule_data.
+
+Theorem C02_sched_par_data :
+  forall (n : node) (ts : list thr) (sched : list nat) (dbn : str),
+         Forall sched_thr ts ->
+         option_map d_map (get_db (fst (run_par n ts sched)) dbn) =
+         option_map d_map
+           (option_map (fun d : db => fold_left db_apply' (ops_on dbn (par_data_log n ts sched)) d)
+              (get_db n dbn)).
+Proof. exact par_data. Qed.
+Print Assumptions C02_sched_par_data.
+
+(* two compare-and-set writes against the same version under any release order: exactly one wins, the other gets the VersionError of the winner's version *)
+Theorem C02_sched_two_cas_one_winner :
+  forall (n : node) (t1 t2 : thr) (dbn : str) (d : db) (k v1 v2 : str) (ver : Z) 
+           (opp1 opp2 : N) (o1 o2 : Z) (old : value),
+         t_pc t1 = PcSetWrite dbn k v1 ver opp1 false o1 ->
+         t_pc t2 = PcSetWrite dbn k v2 ver opp2 false o2 ->
+         get_db n dbn = Some d ->
+         d_strat d = SNone ->
+         get_value d k = Some old ->
+         v_ver old = ver ->
+         0 <= ver ->
+         ver < i32_max ->
+         exists nw : value,
+           let d1 := db_apply' d (DSet' k v1 ver opp1 false) in
+           release n t1 =
+           (put_db n dbn d1, park t1 (PcNotify dbn k v1 (ver + 1) (RqSet k v1 o1)) "watchers.read") /\
+           get_value d1 k = Some nw /\
+           v_val nw = v1 /\
+           v_ver nw = ver + 1 /\
+           (forall (n2 : node) (d2 : db),
+            get_db n2 dbn = Some d2 ->
+            d_strat d2 = SNone ->
+            get_value d2 k = Some nw ->
+            release n2 t2 =
+            (n2,
+             finish t2
+               (RVersionError k (ver + 1) ver nw
+                  {| c_key := k; c_val := v2; c_ver := ver; c_opp := opp2; c_resolve := false |} 
+                  (upd_state nw)))).
+Proof. exact two_cas_one_winner. Qed.
+Print Assumptions C02_sched_two_cas_one_winner.
+
+Theorem C02_sched_two_cas_schedule :
+  forall (n : node) (ts : list thr) (i j : nat) (mid : list nat) (t1 t2 : thr) 
+           (dbn : str) (d : db) (k v1 v2 : str) (ver : Z) (opp1 opp2 : N) (o1 o2 : Z) 
+           (old : value),
+         Forall sched_thr ts ->
+         nth_error ts i = Some t1 ->
+         nth_error ts j = Some t2 ->
+         i <> j ->
+         ~ In j mid ->
+         t_pc t1 = PcSetWrite dbn k v1 ver opp1 false o1 ->
+         t_pc t2 = PcSetWrite dbn k v2 ver opp2 false o2 ->
+         get_db n dbn = Some d ->
+         d_strat d = SNone ->
+         get_value d k = Some old ->
+         v_ver old = ver ->
+         0 <= ver ->
+         ver < i32_max ->
+         Forall (fun l : lop => ~ lop_touches k l)
+           (ops_on dbn (full_log (fst (release_nth n ts i)) (snd (release_nth n ts i)) mid)) ->
+         exists (nw : value) (d2 : db),
+           let n2 := fst (run_schedule n ts (i :: mid)) in
+           let ts2 := snd (run_schedule n ts (i :: mid)) in
+           let r :=
+             RVersionError k (ver + 1) ver nw
+               {| c_key := k; c_val := v2; c_ver := ver; c_opp := opp2; c_resolve := false |} 
+               (upd_state nw) in
+           v_val nw = v1 /\
+           v_ver nw = ver + 1 /\
+           get_db n2 dbn = Some d2 /\
+           get_value d2 k = Some nw /\
+           (In i mid \/ (exists t1' : thr, nth_error ts2 i = Some t1' /\ t_replies t1' = t_replies t1)) /\
+           run_schedule n ts (i :: mid ++ [j]) = (n2, list_update ts2 j (finish t2 r)).
+Proof. exact two_cas_schedule. Qed.
+Print Assumptions C02_sched_two_cas_schedule.
+
+(* an accepted write stays visible for the rest of any schedule that does not write the key *)
+Theorem C02_sched_no_lost_update :
+  forall (n : node) (ts : list thr) (i : nat) (rest : list nat) (t : thr) (dbn key value0 : str)
+           (ver : Z) (opp : N) (rs : bool) (orig : Z) (d : db),
+         Forall sched_thr ts ->
+         nth_error ts i = Some t ->
+         t_pc t = PcSetWrite dbn key value0 ver opp rs orig ->
+         get_db n dbn = Some d ->
+         snd
+           (fst (set_value d {| c_key := key; c_val := value0; c_ver := ver; c_opp := opp; c_resolve := rs |})) =
+         RSet key value0 ->
+         let n1 := fst (release_nth n ts i) in
+         let ts1 := snd (release_nth n ts i) in
+         exists (d1 : db) (v : value),
+           get_db n1 dbn = Some d1 /\
+           get_value d1 key = Some v /\
+           v_val v = value0 /\
+           v_opp v = opp /\
+           (Forall (fun o : dop' => dop_key' o <> key) (ops_on dbn (data_log n1 ts1 rest)) ->
+            exists d2 : db, get_db (fst (run_schedule n1 ts1 rest)) dbn = Some d2 /\ get_value d2 key = Some v).
+Proof. exact no_lost_update. Qed.
+Print Assumptions C02_sched_no_lost_update.
